@@ -121,11 +121,12 @@ prop('C10', src='props/c10_features.cpp',
      level_text='The finite core (27 enabling arguments x 32 feature values x 4 entry points) is enumerated completely on every run; histories of enabling calls and seed contents are sampled. Exploration with an exhaustive core.')
 
 prop('C11', src='props/c11_birthday.cpp',
-     plan={'quick': [{'variant': 'asan', 'workers': 16}], 'thorough': [{'variant': 'asan', 'workers': 16}, {'variant': 'rel', 'workers': 16}]},
+     plan={'quick': [{'variant': 'asan', 'workers': 16}, {'variant': 'rel', 'workers': 16, 'scale': 0.5}], 'thorough': [{'variant': 'asan', 'workers': 16}, {'variant': 'rel', 'workers': 16}]},
+     variant_flags={'rel': {'cxxflags': '-DVERIF_WRAP', 'ldflags': '-Wl,--wrap=malloc,--wrap=free,--wrap=time'}},
      exhaustive=True,
-     rule='(1) exhaustive boundary set: EPOCH + k*STEP + {-1,0,+1} for k = 0..1024 (3075 clocks) and 17 special values (0, 1, EPOCH-1, 2^31 and 2^32 neighbours, 2^63, 2^64-2, 2^64-1, range end); (2) rapidcheck clocks (in-range, month boundaries +-2, before the epoch, beyond the range, uniform 64-bit) followed by a random chain of encode/decode, store/load, crypt, auto-decode. '
+     rule='(1) exhaustive boundary set: EPOCH + k*STEP + {-1,0,+1} for k = 0..1024 (3075 clocks) and 17 special values (0, 1, EPOCH-1, 2^31 and 2^32 neighbours, 2^63, 2^64-2, 2^64-1, range end); (2) rapidcheck clocks (in-range, month boundaries +-2, before the epoch, beyond the range, uniform 64-bit) followed by a random chain of encode/decode, store/load, crypt, auto-decode; one case in eight uses a clock that answers t on the first reading and a failure value afterwards (the birthday must be that of a delivered reading); in the gcc -O2 build libc time() is interposed at link time (--wrap) and the same clock values are delivered through the built-in default clock (time entry NULL). '
           'Oracle (validity predicate): B = EPOCH + k*2629746 with k in 0..1023; in range B <= t < B + STEP; before the epoch and for 2^64-1 B = EPOCH; for every t >= EPOCH B <= t; B unchanged along the chain. Distinct = (t, chain, language).',
-     required_classes={'any': ['in-range', 'before-epoch', 'after-range', 'time-error-value', 'step:crypt', 'step:store/load', 'step:encode/decode']},
+     required_classes={'any': ['in-range', 'before-epoch', 'after-range', 'time-error-value', 'step:crypt', 'step:store/load', 'step:encode/decode', 'default-clock(libc time interposed)']},
      technique='property-based testing (rapidcheck) of a validity predicate over injected clock values + exhaustive enumeration of all 1025 month boundaries on both sides',
      level_text='All month boundaries and the special clock values are enumerated; the remaining 2^64 clocks and the transformation chains are sampled. Exploration.')
 
@@ -189,7 +190,7 @@ prop('C13', src='props/c13_model.cpp', engine='rapidcheck (stateful)',
      level_text='Random walks over the whole API are compared step by step with an abstract model, and every sequence of length <= 5 over a reduced alphabet is enumerated. Exploration of an unbounded history space.')
 
 prop('C15', src='props/c15_alloc.cpp', engine='rapidcheck (stateful, fault injection)', level='fault_enumeration',
-     plan={'quick': [{'variant': 'asan', 'workers': 16}], 'thorough': [{'variant': 'asan', 'workers': 16}, {'variant': 'asan-nd', 'workers': 16}]},
+     plan={'quick': [{'variant': 'asan', 'workers': 16}, {'variant': 'asan-nd', 'workers': 16, 'scale': 0.3}], 'thorough': [{'variant': 'asan', 'workers': 16}, {'variant': 'asan-nd', 'workers': 16}]},
      exhaustive=True,
      rule='fault enumeration: (1) cell scripts - every (entry point x outcome class) cell: create {ok, unsupported}, load {ok, format, checksum, unsupported}, decode and decode_explicit {ok, num-words, lang, mult-lang, checksum, unsupported} - each without a fault and with the 1st, 2nd or 3rd allocation request failing, x 40 language/coin variants, followed by free(NULL), a further create and an encode (subsequent calls behave normally); '
           '(2) rapidcheck operation sequences (create/load/decode/decode_explicit/crypt/encode/free/free(NULL)/enable_features/arm-failure) with a failure mask armed before about one call in six. Allocator: blocks come back filled with non-zero garbage; the k-th request after arming fails per bit mask. '
@@ -207,7 +208,7 @@ prop('C18', src='props/c18_deps.cpp', engine='rapidcheck (stateful)',
           '(2) rapidcheck injection histories: sequences in which about one operation in six is polyseed_inject with set A or B and each optional entry (time, alloc, free) present or NULL, the caller\'s struct overwritten with 0x41 right after the call, interleaved with create/load/decode/crypt/keygen/encode/free on 4 slots. '
           'Oracle: every dependency call during an operation lands in the set that is current (the other set\'s call counters do not move; the KDF of each set is keyed differently so a stale pointer also shows as a model mismatch); create takes 19 bytes in total from the current random source and asks the current clock; freed blocks are wiped; '
           'in the --wrap build (gcc -O2 -DNDEBUG, malloc/free/time interposed at link time) libc malloc/free/time are called inside an API window exactly when the corresponding entry is NULL. Non-trivial = sequence contains an injection; distinct = fingerprint of the sequence.',
-     required_classes={'any': ['single-bit-random-output', 'seq:re-injection-to-other-set', 'inject:opt=7', 'inject:opt=1', 'op:create', 'op:crypt']},
+     required_classes={'any': ['single-bit-random-output', 'pairwise-entry-replacement', 'seq:re-injection-to-other-set', 'inject:opt=7', 'inject:opt=1', 'op:create', 'op:crypt']},
      assumptions=['with the time entry NULL the birthday is compared with the host clock (+-1 month)'],
      technique='stateful property-based testing of injection histories (rapidcheck) with recording dependency sets A/B and link-time interposition of libc malloc/free/time; exhaustive single-bit random outputs',
      level_text='Call logs of two independent dependency sets and interposed libc functions decide, per operation, which implementation was used; all single-bit random outputs are enumerated. Exploration over histories.')
